@@ -14,44 +14,60 @@ import gen_score as G
 
 PROPERTY = "C16"
 DRIVER = "drv_c16"
-PROPS = ["PartituraModel.Props.C16", "PartituraModel.Props.C16Roman", "PartituraModel.Props.C16Heap"]
+PROPS = ["PartituraModel.Props.C16", "PartituraModel.Props.C16Roman", "PartituraModel.Props.C16Heap", "PartituraModel.Props.C16Call"]
 TRUSTED = [
     "copy.deepcopy is modelled by its specification (Model/TransposeHeap.lean `deepcopy`: a fresh cell per object, references "
-    "translated to the copies); the heap stream compares the whole object graph of argument and result with the model on every generated score",
+    "translated to the copies; an object listed twice stays one object); the heap stream compares the whole object graph of argument and result with the model on every generated score",
     "Python dict lookups in STEPS / MIDI_BASE_CLASS / INTERVAL_TO_SEMITONES / ALT_TO_INT / INT_TO_ALT / Roman2Interval_* / "
-    "LOCAL_KEY_TRASPOSITIONS_DCML (tables regenerated into Lean on every run)",
+    "LOCAL_KEY_TRASPOSITIONS_DCML (tables regenerated into Lean on every run); `{id(part): part ...}.values()` keeps the first listing of every object in order (`uniqueParts`)",
     "re.search / re.match / re.sub with the three character classes [a-gA-G], [#b-]*, [^a-zA-Z] and str.count / replace / islower / lower / upper "
     "on ASCII strings (small Lean functions in Model/RomanRoot.lean, Model/LocalKey.lean)",
-    "Interval.validate / change_quality: the model of C12 (Model/Pitch.lean) is reused",
+    "str(int) is `showInt` (decimal digits, leading '-'), Python `%` with modulus 7 / 12 the non-negative remainder, str.capitalize on a one-letter step = upper",
+    "Interval.change_quality: the model of C12 (Model/Pitch.lean) is reused; Interval.__init__ / validate / semitones are modelled here (Model/TransposeCall.lean) and compared on numbers -9..17 x 11 quality strings x 5 direction strings",
 ]
 PARTIAL = [
     "the opaque part of an object (everything but pitch fields and references: onset, duration, voice, staff, id ...) is a payload "
     "in the heap model: `everything_else_unchanged` proves it is carried over unchanged, its CONTENT is compared by the heap stream (CRC of the attributes) and the fingerprints",
-    "transpose on an argument that is neither Score nor Part (returns an untransposed copy) is modelled (`partsOf`) but not exercised: the property speaks of scores and parts",
-    "a part listed twice in one score is transposed twice by the code and by the model; the theorems assume each note is listed once (`ValidArg.once`)",
+    "an argument that is neither Score nor Part: `other_argument_copied` proves it comes back as an untransposed deep copy and the heap stream exercises it with Note / Rest "
+    "arguments; lists of parts and PartGroups (also `ScoreLike`) take the same branch but are not generated (the property speaks of scores and parts)",
+    "a NOTE held by two different parts of one score (possible only by bypassing Part.add) is moved once per part: proved exactly (`transposed_as_often_as_listed`), "
+    "and excluded from the 'moved by the interval' theorems by `ValidArg.once`; a PART listed twice is moved once (fix F-C16-6, `parts_reached_once`)",
+    "when a note raises inside _transpose_note_inplace it may already carry its new step / octave: that is a cell of the COPY, unreachable after the raise; the run "
+    "model (`transposeRun`) leaves that cell as it was (the argument's cells are proved and compared untouched: `call_never_touches_the_argument`)",
     "text parsing of RomanNumeral (`_process_*`: degrees, inversion, quality from the annotation text) is outside the property (the streams pass the fields explicitly); "
     "an inversion of 0 computes no root at all (mirrored, not judged)",
     "bass notes of diminished / augmented / augmented-sixth chords: find_bass_note has a TODO, the oracle does not judge them (the model mirrors what the code does)",
 ]
 RULE = ("exhaustive: steps x alterations {-2..2, None} x octaves 0..8 x 39 interval classes x {up, down} on single notes; "
-        "transpose_note on steps x alterations -3..3 x 39 classes; seeded random scores/parts with ties, chords, grace "
+        "transpose_note on steps x alterations -3..3 x 39 classes; Interval(number, quality, direction) for numbers -9..17 x 11 quality "
+        "strings x 5 direction strings, each constructed, sized, applied to 3 notes and handed to transpose_note (also with the default direction); "
+        "seeded random scores/parts with ties, chords, grace "
         "notes, rests, unpitched notes as Score and as Part argument, every tie shape of TIE_MODES (enharmonic chains, removed heads / "
-        "middles / tails, chains across parts and out of the argument, one-way links) with both argument kinds whatever the seed; "
+        "middles / tails, chains across parts and out of the argument, one-way links) with both argument kinds whatever the seed; scores that "
+        "list one part twice; whole calls with 15 odd intervals (compound, zero, negative, wrong quality, wrong direction; parts with and without "
+        "pitched notes); Note / Rest arguments; "
         "32 key names (written with b, # and -) x 20 secondary x 40 primary degrees x inversions 0..3; sequences and chains of "
         "process_local_key calls; distinct = distinct request line")
-LEVEL_TEXT = ("Lean 4 theorems for all octaves and alterations (unbounded integers), now without side conditions at the level of the "
-              "function the driver runs: for every step name, the 39 classes, both directions a note does not raise, its MIDI pitch "
-              "moves by the interval's semitones, its staff position by number-1 steps, up-then-down restores it (note_moved, "
-              "note_up_down); over a heap model of transpose (deepcopy, Score/Part dispatch, both loops, in-place update) for ALL "
-              "object graphs: the argument's cells are untouched and a new object is returned (argument_untouched), every other "
-              "field and every reference - ties included - of every object is carried to the copy (everything_else_unchanged, "
-              "unvisited_copied), every pitched note of the parts is transposed from its own spelling whatever it is tied to "
-              "(every_note_transposed, every_note_moved), the call is total on valid input (transpose_total) and up-then-down "
-              "restores the spelling of whole scores (up_then_down_restores); the chord-root arithmetic (process_local_key, "
+LEVEL_TEXT = ("Lean 4 theorems for all octaves and alterations (unbounded integers), without side conditions at the level of the "
+              "call the user writes: `Interval(number, quality, direction)` is accepted exactly for a valid class of the reduced number and "
+              "direction up/down (constructor_accepts_iff), has a size exactly for numbers 1..7 whatever the quality string and integer "
+              "(size_only_for_simple_numbers), and `_transpose_note_inplace` on the Interval object is the modelled arithmetic for EVERY integer "
+              "number (note_obj_refines); for an accepted interval with 1 <= number <= 7 a note does not raise, its MIDI pitch "
+              "moves by the interval's semitones, its staff position by number-1 steps, the octave is the quotient of the staff position by 7, "
+              "up-then-down restores it (note_call_moved, note_moved, octave_follows_step, note_up_down); every other number makes the call raise "
+              "as soon as there is a note to move (call_sizeless); over a heap model of transpose (deepcopy, Score/Part/other dispatch, every part "
+              "object once, both loops, in-place update) for ALL "
+              "object graphs: the argument's cells are untouched whether the call returns or raises at any note - no hypothesis at all "
+              "(call_never_touches_the_argument over the run-to-first-raise model the driver answers with) - and a new object is returned (argument_untouched), every other "
+              "field and every reference - ties included - of every object is carried to the copy (everything_else_unchanged), the copy of EVERY "
+              "object is the transposition applied as often as the loops list it - no hypothesis (transposed_as_often_as_listed), hence every pitched "
+              "note of a valid argument is transposed from its own spelling whatever it is tied to "
+              "(every_note_transposed, every_note_moved, call_moves_every_note), the call is total however often a note is listed (call_total) and "
+              "there-and-back restores the spelling of whole scores (call_there_and_back); the chord-root arithmetic (process_local_key, "
               "find_root_note with both fallbacks, find_bass_note) is modelled completely and proved to be scale arithmetic over "
               "whole finite domains, including that partitura reads back the names it writes.  The model is tied to the code by "
-              "regenerated tables and by differential streams over the finite domain the property names plus generated scores "
-              "whose whole object graph (argument after the call and result) is compared with the model.")
+              "regenerated tables and branch constants (recovered by running the live functions) and by differential streams over the finite domain "
+              "the property names plus generated scores whose whole object graph (argument after the call and result) is compared with the model.")
 
 STEPS = "CDEFGAB"
 BASE = {"C": 0, "D": 2, "E": 4, "F": 5, "G": 7, "A": 9, "B": 11}
@@ -184,6 +200,20 @@ def semis(q, n):
 #   one_way_prev only `tie_prev` is set
 #   mixed        enharmonic chains, then a head and a tail removed, then one one-way link
 TIE_MODES = ["enh", "mis", "rm_head", "rm_mid", "rm_tail", "cross", "one_way_next", "one_way_prev", "mixed"]
+
+
+ODD_INTERVALS = [(9, "M", "up"), (8, "P", "down"), (0, "M", "up"), (-2, "M", "up"), (2, "P", "up"), (3, "M", "sideways"),
+                 (15, "P", "up"), (14, "m", "down"), (-6, "P", "down"), (5, "P", "Up"), (7, "M", ""), (1, "M", "up"),
+                 (10, "x", "up"), (1, "P", "down"), (8, "A", "up")]
+IVL_QUALS = ["dd", "d", "m", "M", "P", "A", "AA", "x", "", "p", "MM"]
+IVL_DIRS = ["up", "down", "Up", "", "sideways"]
+IVL_NOTES = [("C", None, 4), ("B", 1, 3), ("F", -2, 5), ("E", 0, 0), ("G", 2, 8), ("A", -1, 2), ("D", 1, 6)]
+
+
+def theory_semis(q, n):
+    """size of the interval (quality q, number n >= 1, compound numbers included) from music theory"""
+    simple = (n - 1) % 7 + 1
+    return semis(q, simple) + 12 * ((n - 1) // 7)
 
 
 def midi_of(step, alter, octv):
@@ -331,7 +361,8 @@ def heap_of(root, known, base):
         return index[id(o)]
 
     add(root)
-    parts = list(root.parts) if isinstance(root, S.Score) else [root]
+    # the code's dispatch: the parts of a Score, a Part itself, nothing of any other argument
+    parts = list(root.parts) if isinstance(root, S.Score) else ([root] if isinstance(root, S.Part) else [])
     for p in parts:
         addr(p)
     content = {}
@@ -436,8 +467,22 @@ def cases(rng, tier):
         for si, sec in enumerate(["I", "II", "III", "IV", "V", "VI", "VII", "i", "ii", "iii", "iv", "v", "vi", "vii", "III+",
                                   "bVII", "bVI", "bIII", "#iv", "bii"]):
             yield {"k": "roman", "key": lk, "sec": sec, "inv": (ki + si) % 4}
+    # Interval(number, quality, direction) as the user writes it: zero, negative and compound numbers, qualities that
+    # do not exist for the number, directions that are neither "up" nor "down" - then one note transposed
+    for num in range(-9, 18):
+        yield {"k": "ivl", "n": num}
     n = 40 if tier == "quick" else 1500
     ivs = all_intervals()
+    # whole calls with such intervals (raises: the argument must stay untouched; a part without pitched notes comes
+    # back as a copy whatever the size of the interval) and with an argument that is neither Score nor Part (a copy)
+    for i in range(len(ODD_INTERVALS) * (1 if tier == "quick" else 6)):
+        num, q, dr = ODD_INTERVALS[i % len(ODD_INTERVALS)]
+        yield {"k": "part", "seed": rng.randrange(2**31), "q": q, "n": num, "dir": dr, "as_part": i % 2 == 0, "small": True,
+               "odd": True, "rests_only": i % 5 == 4}
+    for i in range(4 if tier == "quick" else 40):
+        q, num = rng.choice(ivs[5:])
+        yield {"k": "part", "seed": rng.randrange(2**31), "q": q, "n": num, "dir": ["up", "down"][i % 2], "as_part": True,
+               "small": True, "arg_kind": ["note", "rest"][i % 2], "ties": "enh" if i % 4 < 2 else None}
     for i in range(n):
         q, num = rng.choice(ivs)
         d = {"k": "part", "seed": rng.randrange(2**31), "q": q, "n": num, "dir": rng.choice(["up", "down"]),
@@ -451,9 +496,10 @@ def cases(rng, tier):
             d["read_first"] = True
         # how the Score argument came to be (its flat `.parts` is what the caller sees; `part_structure` may lag behind)
         if not d["as_part"] and rng.random() < 0.4:
-            d["score_form"] = rng.choice(["setitem", "assign_parts", "unfolded_max", "unfolded_min", "grouped"])
-        # two parts of one score may carry the same id (first parts of two loaded files are both "P1"), and one part
-        # object may be listed only once: what is transposed is every part the score holds, identified by nothing else
+            d["score_form"] = rng.choice(["setitem", "assign_parts", "unfolded_max", "unfolded_min", "grouped", "listed_twice"])
+        # two parts of one score may carry the same id (first parts of two loaded files are both "P1"); one part
+        # object may be listed twice (score_form "listed_twice": it is ONE object, its notes move once, F-C16-6):
+        # what is transposed is every part OBJECT the score holds, identified by nothing else
         if not d["as_part"] and rng.random() < 0.25:
             d["same_ids"] = True
         # what the TIES of the argument look like (see TIE_MODES): a third of the random arguments, and one block that
@@ -532,6 +578,58 @@ def evaluate(d):
                     ev.oracle.append("transpose_note(%s,%d,%s%d) = %r but note transposition gives %s%s" % (
                         st, al, q, n, r, note.step, note.alter))
         ev.key = "tno:%s:%d" % (st, al)
+    elif k == "ivl":
+        num = d["n"]
+        notes = [IVL_NOTES[(num + j) % len(IVL_NOTES)] for j in range(3)]
+        for q in IVL_QUALS:
+            for dr in IVL_DIRS:
+                iv, e = call(S.Interval, num, q, dr)
+                tag = None if e is None else ("A" if isinstance(e, AssertionError) else "err")
+                ev.requests.append("ivs %d %s %s" % (num, W.s(q), W.s(dr)))
+                if tag:
+                    ev.impl.append(tag)
+                else:
+                    sz, e2 = call(lambda: iv.semitones)
+                    ev.impl.append(W.f_int(sz) if e2 is None else ("K" if isinstance(e2, KeyError) else "err"))
+                ev.info["interval_" + ("rejected" if tag else "accepted")] = ev.info.get("interval_" + ("rejected" if tag else "accepted"), 0) + 1
+                if tag and dr in ("up", "down") and (q, num) in all_intervals():
+                    # the property quantifies over all 39 interval classes and both directions: each of them is an interval
+                    ev.oracle.append("interval class: Interval(%d, %r, %r) is refused (%r); it is one of the 39 interval classes" % (num, q, dr, e))
+                # transpose_note (octave-free, upward only) with the same Interval object; once per quality with the
+                # DEFAULT direction of the constructor
+                for dflt in ([False, True] if dr == "up" else [False]):
+                    for st, al, oc in notes[:2]:
+                        ev.requests.append("tnf %d %s %s %s %d" % (num, W.s(q), "-" if dflt else W.s(dr), W.s(st), al or 0))
+                        ivd, e4 = call(lambda: S.Interval(num, q)) if dflt else (iv, e)
+                        r4, e5 = (None, e4) if e4 else call(M.transpose_note, st, al or 0, ivd)
+                        ev.impl.append("err" if e5 else W.f_tuple(r4[0], W.f_int(r4[1])))
+                for st, al, oc in notes:
+                    ev.requests.append("ivn %d %s %s %s %s %d" % (num, W.s(q), W.s(dr), W.s(st), W.opt(W.i, al), oc))
+                    if tag:
+                        ev.impl.append(tag)
+                        continue
+                    note = S.Note(step=st, octave=oc, alter=al)
+                    _, e3 = call(M._transpose_note_inplace, note, iv)
+                    if e3 is not None:
+                        ev.impl.append("K" if isinstance(e3, KeyError) else "err")
+                        ev.info["interval_without_size"] = ev.info.get("interval_without_size", 0) + 1
+                        continue
+                    ev.impl.append(fmt_sp(note.step, note.alter, note.octave))
+                    ev.info["interval_note_moved"] = ev.info.get("interval_note_moved", 0) + 1
+                    # whatever interval the constructor accepts and the transposition carries out moves the note by
+                    # the interval's number of staff steps and semitones (compound numbers: whole octaves on top)
+                    simple = (num - 1) % 7 + 1
+                    if num >= 1 and dr in ("up", "down") and (q, simple) in all_intervals():
+                        sg = 1 if dr == "up" else -1
+                        m0, m1 = midi_of(st, al, oc), midi_of(note.step, note.alter, note.octave)
+                        d0, d1 = 7 * oc + STEPS.index(st), 7 * note.octave + STEPS.index(note.step)
+                        if m1 - m0 != sg * theory_semis(q, num):
+                            ev.oracle.append("semitones: Interval(%d, %r, %r) moved %s to %s: %d semitones, the interval is %d" % (
+                                num, q, dr, spell(st, al, oc), spell(note.step, note.alter, note.octave), m1 - m0, sg * theory_semis(q, num)))
+                        if d1 - d0 != sg * (num - 1):
+                            ev.oracle.append("staff steps: Interval(%d, %r, %r) moved %s to %s: %d steps, the interval is %d" % (
+                                num, q, dr, spell(st, al, oc), spell(note.step, note.alter, note.octave), d1 - d0, sg * (num - 1)))
+        ev.key = "ivl:%d" % num
     elif k == "lockey":
         def one(loc, glob, tonic, why):
             """both forms of process_local_key(loc, glob); `tonic` = what the oracle takes `glob` for; returns the
@@ -650,6 +748,8 @@ def evaluate(d):
             kw["p_tie"] = 0.5
         if d.get("small"):
             kw.update(n_measures=rng.randint(1, 2), voices=rng.randint(1, 2))
+        if d.get("rests_only"):
+            kw.update(p_rest=1.0, p_unp=0.0, p_grace=0.0)
         sd = G.random_score_desc(rng, nparts=1 if d["as_part"] else rng.randint(2 if tm == "cross" else 1, 3), **kw)
         if tm:
             for pd in sd["parts"]:
@@ -687,25 +787,35 @@ def evaluate(d):
             for p in score.parts:
                 p.parent = g
             score = S.Score(g, id="g")
+        elif form == "listed_twice":
+            # one part object listed twice (the same staff shown in two places of a layout, a list built with `* 2`)
+            ps = list(score.parts)
+            score = S.Score(ps + [ps[rng.randrange(len(ps))]], id="twice")
+            ev.info["scores_listing_a_part_twice"] = 1
         arg = score.parts[0] if d["as_part"] else score
         keep_alive = tie_ops([arg] if d["as_part"] else list(arg.parts), tm, rng, ev.info) if tm else []
         ev.info["tie_links"] = sum(1 for p in ([arg] if d["as_part"] else arg.parts) for n in p.notes if n.tie_next is not None)
+        if d.get("arg_kind"):
+            return other_argument(d, ev, arg, rng, keep_alive)
         if d.get("read_first"):
             for p in ([arg] if d["as_part"] else list(arg.parts)):
                 call(lambda: p.note_array(include_pitch_spelling=True))
                 call(lambda: [n.midi_pitch for n in p.notes])
         before = G.fingerprint_score(arg, with_ids=True)
         out_before = linked_outside([arg] if d["as_part"] else list(arg.parts))
-        iv = S.Interval(d["n"], d["q"], d["dir"])
         objs0, heap0 = heap_of(arg, {}, 0)
-        res, e = call(M.transpose, arg, iv)
+        iv, e_iv = call(S.Interval, d["n"], d["q"], d["dir"])
+        res, e = (None, e_iv) if e_iv else call(M.transpose, arg, iv)
+        if d.get("odd"):
+            ev.info["odd_interval_" + ("rejected" if e_iv else "raised" if e else "returned")] = 1
         after = G.fingerprint_score(arg, with_ids=True)
         # heap stream: the argument's object graph before the call -> the argument's graph after it + the result's
         known = {id(o): k for k, o in enumerate(objs0)}
         objs1, heap1 = heap_of(arg, {}, 0)
-        ev.requests.append("th %s %d %s 0 %s" % (W.s(d["q"]), d["n"], d["dir"], W.lst(cell_req, heap0)))
+        ev.requests.append("th %s %d %s 0 %s" % (W.s(d["q"]), d["n"], W.s(d["dir"]), W.lst(cell_req, heap0)))
         if e:
-            ev.impl.append("err")
+            # the call raised: what the argument's object graph looks like now (model: `transposeRun`, the heap at the raise)
+            ev.impl.append(W.f_tuple("err", W.f_list(cell_fmt, heap1)))
         else:
             objs2, heap2 = heap_of(res, known, len(heap0))
             ev.impl.append(W.f_tuple(W.f_int(known.get(id(res), len(heap0))), W.f_list(cell_fmt, heap1 + heap2)))
@@ -723,8 +833,32 @@ def evaluate(d):
             ev.oracle.append("transpose modified its argument (%s argument)" % ("Part" if d["as_part"] else "Score"))
         if out_before != linked_outside([arg] if d["as_part"] else list(arg.parts)):
             ev.oracle.append("transpose modified a note that the argument's notes are tied to (removed chain member / note of another part)")
+        simple_valid = d["dir"] in ("up", "down") and (d["q"], d["n"]) in all_intervals()
+        if d.get("odd"):
+            ev.key = "part-odd:%d:%s:%s:%s:%s" % (d["seed"], d["n"], d["q"], d["dir"], d.get("rests_only"))
         if e:
-            ev.oracle.append("transpose raised %r" % (e,))
+            if simple_valid:
+                ev.oracle.append("transpose raised %r" % (e,))
+            return ev
+        if not simple_valid:
+            # (nothing of the property speaks about a call the unchanged code carries out with such an interval: a part
+            # without pitched notes; the heap stream compares the copy)
+            if res is arg:
+                ev.oracle.append("transpose returned its argument instead of a new object")
+            if d["n"] >= 1 and d["dir"] in ("up", "down") and (d["q"], (d["n"] - 1) % 7 + 1) in all_intervals():
+                # a compound interval that the call carries out has to move every note by the interval, whole octaves included
+                sg = 1 if d["dir"] == "up" else -1
+                pin = [arg] if d["as_part"] else list(arg.parts)
+                pout = [res] if d["as_part"] else list(getattr(res, "parts", []))
+                for pi, po in zip(pin, pout):
+                    for a, b in zip(list(pi.notes), list(po.notes)):
+                        dm = midi_of(b.step, b.alter, b.octave) - midi_of(a.step, a.alter, a.octave)
+                        ds = 7 * b.octave + STEPS.index(b.step) - 7 * a.octave - STEPS.index(a.step)
+                        if dm != sg * theory_semis(d["q"], d["n"]) or ds != sg * (d["n"] - 1):
+                            ev.oracle.append("note %s (%s) moved by %d semitones and %d staff steps to %s, Interval(%d, %r, %r) is %d semitones and %d steps" % (
+                                a.id, spell(a.step, a.alter, a.octave), dm, ds, spell(b.step, b.alter, b.octave), d["n"], d["q"], d["dir"],
+                                sg * theory_semis(d["q"], d["n"]), sg * (d["n"] - 1)))
+                            break
             return ev
         if res is arg:
             ev.oracle.append("transpose returned its argument instead of a new object")
@@ -821,6 +955,40 @@ def evaluate(d):
                         [x for x, _ in bad], [y for _, y in bad]))
         ev.key = "part:%d:%s:%s:%s:%s:%s" % (d["seed"], d.get("warm"), d.get("read_first"), d.get("score_form"), d.get("same_ids"), tm)
         del keep_alive
+    return ev
+
+
+def other_argument(d, ev, part, rng, keep_alive):
+    """`transpose` on an argument that is neither Score nor Part (the dispatch's last branch): one Note / Rest of the
+    part.  The code returns an untransposed deep copy; the property (scores and parts) demands only that the argument
+    is left alone and the result is new."""
+    import partitura.score as S
+    import partitura.utils.music as M
+
+    pool = [o for o in G.part_objects(part) if (isinstance(o, S.Note) if d["arg_kind"] == "note" else isinstance(o, S.Rest))]
+    if not pool:
+        pool = list(part.notes)
+    if not pool:
+        return ev
+    arg = rng.choice(pool)
+    objs0, heap0 = heap_of(arg, {}, 0)
+    res, e = call(M.transpose, arg, S.Interval(d["n"], d["q"], d["dir"]))
+    known = {id(o): k for k, o in enumerate(objs0)}
+    objs1, heap1 = heap_of(arg, {}, 0)
+    ev.requests.append("th %s %d %s 0 %s" % (W.s(d["q"]), d["n"], W.s(d["dir"]), W.lst(cell_req, heap0)))
+    if e:
+        ev.impl.append(W.f_tuple("err", W.f_list(cell_fmt, heap1)))   # (compared with the model; the property does not judge it)
+    else:
+        objs2, heap2 = heap_of(res, known, len(heap0))
+        ev.impl.append(W.f_tuple(W.f_int(known.get(id(res), len(heap0))), W.f_list(cell_fmt, heap1 + heap2)))
+        shared = sorted({r for c in heap2 for r in (c[1] if c[0] in "SP" else c[-2]) if r < len(heap0)})
+        if shared or id(res) in known:
+            ev.oracle.append("the result shares %d object(s) with the argument" % (len(shared) + (id(res) in known)))
+    if [id(o) for o in objs0] != [id(o) for o in objs1] or heap0 != heap1:
+        ev.oracle.append("transpose modified the object graph of its argument (%s argument)" % type(arg).__name__)
+    ev.info["other_argument_cells"] = len(heap0)
+    ev.key = "part-other:%d:%s:%s" % (d["seed"], d["arg_kind"], type(arg).__name__)
+    del keep_alive
     return ev
 
 
